@@ -21,7 +21,16 @@ from bumble import core, hci, ll
 from pyvc import ext_c06
 from pyvc.contracts import (Any, Bool, Bytes, Callback, ConcList, Const, Inst, Int, IntRange, OneOf, Opaque, Opt, Str, MapOf,
                             contract, forall, iff, implies, lemma, mget, mhas, model, same)
-from pyvc.ext_c06 import all_keys, any_key
+from pyvc.ext_c06 import all_keys, any_key, holds
+
+_lemma = lemma
+
+
+def lemma(name, fn, native_setup=None, **kw):  # noqa: F811
+    """pyvc.contracts.lemma + native_setup (replay.run_native reads it as an attribute of the entry)"""
+    l = _lemma(name, fn, **kw)
+    l.native_setup = native_setup
+    return l
 from pyvc.ext_c11 import AnyListOf
 
 ENVIRONMENT = [
@@ -68,7 +77,7 @@ def _conv(x, memo, depth=0):
     if depth > 8 or id(x) in memo:
         return x
     if isinstance(x, (list, dict)) or (hasattr(x, '__dict__') and not isinstance(x, type) and not callable(x) and type(x).__module__.split('.')[0] in ('bumble', 'types', 'pyvc')):
-        memo.add(id(x))
+        memo[id(x)] = x  # (keeps x alive: ids of dead objects are reused)
     if isinstance(x, list):
         for i, y in enumerate(x):
             x[i] = _conv(y, memo, depth + 1)
@@ -92,7 +101,7 @@ def _conv(x, memo, depth=0):
 
 
 def nat_fix(env):
-    memo = set()
+    memo = {}
     for n in list(env):
         env[n] = _conv(env[n], memo)
 
@@ -328,7 +337,6 @@ for _t, _tname in ((LE, 'le'), (BR_EDR, 'classic')):
         prop='C06',
         params=dict(self=C, sender_address=ADDR, transport=Const(_t), data=Bytes),
         ghost=SEND_GHOST,
-        requires=tables_inv,
         ensures=lambda self, sender_address, transport, data, ghost, old: [
             # exactly one ACL packet for a known sender, none for an unknown one
             ghost.acl == old.ghost.acl + (1 if mhas(table_of(self, transport), sender_address) else 0),
@@ -825,4 +833,147 @@ contract(
     stubs=LOOP_STUBS,
     inline=['Controller.public_address'],
     native_setup=nat_link,
+)
+
+
+# ---------------------------------------------------------------------------
+# send_advertising_pdu: every other controller on the link gets the PDU once, the sender does not
+# (ghost driver: it builds a link of n controllers, one of which is the sender, and calls the real function)
+# ---------------------------------------------------------------------------
+def _drive_send_adv(n, s):
+    def drive(link, c0, c1, c2, packet, ghost):
+        cs = [c0, c1, c2][:n]
+        link.controllers = set(cs)
+        before = [c.rx_adv for c in cs]
+        scheduled = ghost.scheduled
+        link.send_advertising_pdu(cs[s], packet)
+        assert ghost.scheduled == scheduled + (n - 1), 'one-delivery-per-other-controller'
+        for i in range(n):
+            if i == s:
+                assert cs[i].rx_adv == before[i], 'sender-does-not-hear-itself'
+            else:
+                assert cs[i].rx_adv == before[i] + 1 and cs[i].rx_adv_packet == packet, 'every-other-controller-gets-the-pdu-once'
+
+    return drive
+
+
+for _n in (1, 2, 3):
+    for _s in range(_n):
+        lemma(
+            f'send_advertising_pdu_n{_n}_sender{_s}',
+            _drive_send_adv(_n, _s),
+            prop='C06',
+            params=dict(link=Inst(f'{LINK}#routing'), c0=LC, c1=LC, c2=LC, packet=Opaque('pdu')),
+            ghost=dict(scheduled=Int, loop=Inst('ghost:Loop')),
+            inline=['LocalLink.send_advertising_pdu'],
+            stubs=LOOP_STUBS,
+            native_setup=nat_fix,
+            note=f'bounded(3): {_n} controller(s) on the link, the sender is number {_s}',
+        )
+
+
+# ===========================================================================
+# the two table entries made for ONE CONNECT_IND (lemma connection_pair_established) route to each other, whatever the
+# own-address types (lemma reverse_lookup)
+# ===========================================================================
+def no_own_address(c, a):
+    """no connection of controller c uses `a` as its own address (own addresses are unique on the link)"""
+    return all_keys(c.le_connections, lambda k: mget(c.le_connections, k, 'self_address') != a)
+
+
+def paired(central, peripheral, own, P, hc, hp):
+    """the two ends of one LE connection: the central's entry for P (own address `own`, handle hc) and the peripheral's
+    entry for `own` (own address P, handle hp)"""
+    cl, pl = central.le_connections, peripheral.le_connections
+    return [
+        mhas(cl, P) and mget(cl, P, 'self_address') == own and mget(cl, P, 'peer_address') == P and h_of(cl, P) == hc,
+        mhas(pl, own) and mget(pl, own, 'self_address') == P and mget(pl, own, 'peer_address') == own and h_of(pl, own) == hp,
+    ]
+
+
+def connection_pair_established(central, peripheral, ghost):
+    P = central.pending_le_connection.peer_address
+    own = initiator_address(central, central.pending_le_connection)
+    # 1. the central sees P's advertisement while its LE Create Connection to P is pending
+    try:
+        central.create_le_connection(P)
+    except StopIteration:
+        return  # all 3839 handles of the central are in use: no connection is made
+    hc = ghost.cc_handle
+    assert holds(lambda: ghost.cc == 1 and ghost.cc_role == CENTRAL and ghost.cc_peer == P), 'central-reports-the-connection-to-P'
+    assert holds(lambda: ghost.ci_advertiser == P and ghost.ci_initiator == own), 'connect-ind-names-both-ends'
+    # 2. that CONNECT_IND reaches the peripheral, which advertises with address P (legacy advertising)
+    try:
+        peripheral.on_le_connect_ind(ll.ConnectInd(initiator_address=ghost.ci_initiator, advertiser_address=ghost.ci_advertiser, interval=0, latency=0, timeout=0))
+    except StopIteration:
+        return
+    hp = ghost.cc_handle
+    assert holds(lambda: ghost.cc == 2 and ghost.cc_role == PERIPHERAL and ghost.cc_peer == own), 'peripheral-reports-the-connection-to-the-centrals-address'
+    assert holds(lambda: paired(central, peripheral, own, P, hc, hp)), 'both-ends-hold-matching-entries'
+    # own addresses stay unique: the central still uses P on no connection, the peripheral the central's address on none
+    assert holds(lambda: no_own_address(central, P) and no_own_address(peripheral, own)), 'own-addresses-still-unique'
+
+
+def pair_requires(central, peripheral, ghost):
+    if central.pending_le_connection is None:
+        return [False]  # an LE Create Connection command is pending at the central
+    return tables_inv(central) + tables_inv(peripheral) + own_addresses_linked(peripheral) + [
+        ghost.cc == 0,
+        central.link is not None,
+        peripheral.link is not None,
+        # the central is not connected to P yet; the peripheral advertises (legacy) with the address the central asked for
+        not mhas(central.le_connections, central.pending_le_connection.peer_address),
+        peripheral.le_legacy_advertiser.enabled,
+        legacy_address(peripheral) == central.pending_le_connection.peer_address,
+        # own addresses are unique on the link (environment): the two devices use different addresses, the central uses P
+        # on no connection, the peripheral uses the central's address on none
+        initiator_address(central, central.pending_le_connection) != central.pending_le_connection.peer_address,
+        no_own_address(central, central.pending_le_connection.peer_address),
+        no_own_address(peripheral, initiator_address(central, central.pending_le_connection)),
+    ]
+
+
+lemma(
+    'connection_pair_established',
+    connection_pair_established,
+    prop='C06',
+    params=dict(central=Inst(CTRL_INIT), peripheral=Inst(CTRL_ADV)),
+    ghost=dict(SEND_GHOST, cancelled=Int, **LINK_GHOST),
+    requires=pair_requires,
+    uses=['bumble.controller:Controller.create_le_connection', 'bumble.controller:Controller.on_le_connect_ind@sets0'],
+    feas_timeout_ms=300,
+    native_setup=nat_fix,
+)
+
+
+def reverse_lookup(link, central, peripheral, central_first, own, P, hc, hp, data_c2p, data_p2c, ghost):
+    # LocalLink.controllers is a set: both enumeration orders (a list is enumerated in the order given)
+    link.controllers = [central, peripheral] if central_first else [peripheral, central]
+    n = ghost.acl
+    # central -> peripheral: Connection.on_acl_pdu sends to the connection's peer address
+    link.send_acl_data(central, P, LE, data_c2p)
+    assert holds(lambda: ghost.acl == n + 1 and ghost.acl_handle == hp and ghost.acl_data == data_c2p), 'central-to-peripheral-delivered-on-the-peripherals-handle'
+    # peripheral -> central
+    link.send_acl_data(peripheral, own, LE, data_p2c)
+    assert holds(lambda: ghost.acl == n + 2 and ghost.acl_handle == hc and ghost.acl_data == data_p2c), 'peripheral-to-central-delivered-on-the-centrals-handle'
+
+
+lemma(
+    'reverse_lookup',
+    reverse_lookup,
+    prop='C06',
+    params=dict(link=Inst(f'{LINK}#routing'), central=C, peripheral=C, central_first=OneOf(True, False), own=ADDR, P=ADDR, hc=Int, hp=Int, data_c2p=Bytes, data_p2c=Bytes),
+    ghost=dict(SEND_GHOST, scheduled=Int, loop=Inst('ghost:Loop')),
+    requires=lambda central, peripheral, own, P, hc, hp: paired(central, peripheral, own, P, hc, hp) + [
+        # own addresses are unique on the link: the central uses P on no connection, the peripheral uses the central's address on none
+        no_own_address(central, P),
+        no_own_address(peripheral, own),
+    ],
+    uses=['bumble.controller:Controller.on_link_acl_data@le'],
+    inline=['LocalLink.send_acl_data', 'LocalLink.find_le_controller', 'Controller.public_address', 'Controller.random_address'],
+    invariants={('LocalLink.find_le_controller', 1): inner_inv},
+    loop_modifies={('LocalLink.find_le_controller', 1): []},
+    modifies=['link.controllers', 'ghost.scheduled'] + SEND_MOD,
+    stubs=LOOP_STUBS,
+    native_setup=nat_fix,
 )
